@@ -18,7 +18,7 @@ from props import c14 as V
 
 ID = "C15"
 PROP_MODULES = ["GPVerif.Props.C15"]
-BUILD_TARGETS = ["GPVerif.Props.C15", "GPVerif.Model.ELBO", "GPVerif.Model.Variational", "GPVerif.Gen.ElboScaling", "GPVerif.Model.Proto"]
+BUILD_TARGETS = ["GPVerif.Props.C15", "GPVerif.Model.ELBO", "GPVerif.Model.Variational", "GPVerif.Gen.ElboScaling", "GPVerif.Gen.VariationalAlgebra", "GPVerif.Model.Proto"]
 RULE = ("objective value: {VariationalELBO, PredictiveLogLikelihood} x {whitened, unwhitened} x variational distribution "
         "x beta x num_data N x minibatch size B x priors on/off x added losses (0,1,2) x parameter batch; one case per "
         "batch element.  Bound chain (Gaussian likelihood): per data set, random q(u), adversarial q near q*, q* itself, "
@@ -40,8 +40,9 @@ def generate(ctx):
     sys.path.insert(0, os.path.join(C.VERIF, "harness"))
     from translate import g4_elbo_scaling
     t, changed = g4_elbo_scaling.generate(C.REPO, GEN)
+    V.generate(ctx)          # the C14 driver (q(f), KL) evaluates the generated variational algebra
     _state["gen"] = t
-    ctx.notes["gen_changed"] = changed
+    ctx.notes["gen_changed"] = changed or ctx.notes.get("gen_changed", False)
     ctx.notes["gen_expressions"] = {k: t[k] for k in ("ll", "kl", "lp", "al", "comb", "ngd")}
 
 
@@ -635,7 +636,7 @@ def correspondence(ctx):
     import warnings
     torch.set_num_threads(2)
     warnings.simplefilter("ignore")
-    d14 = V.Driver("C14")
+    d14 = V.open_driver(ctx)
     d15 = V.Driver("C15")
     try:
         for i, cfg in enumerate(objective_configs(ctx)):
@@ -666,7 +667,7 @@ def search(ctx, broken):
     import warnings
     torch.set_num_threads(2)
     warnings.simplefilter("ignore")
-    d14 = V.Driver("C14")
+    d14 = V.open_driver(ctx)
     try:
         for i, cfg in enumerate(objective_configs(ctx)):
             cfg["rng_label"] = f"objective:{i}"
@@ -682,7 +683,7 @@ def replay(ctx, payload):
     warnings.simplefilter("ignore")
     case = payload["case"]
     os.environ["VERIF_SEED"] = str(payload.get("seed", 0))
-    d14 = V.Driver("C14")
+    d14 = V.open_driver(ctx)
     d15 = V.Driver("C15")
     try:
         cfg = case["cfg"]
